@@ -122,6 +122,13 @@ def generate(rng, tier):
         fv, iv = held(v)
         out = printed(iv, src)
         add(two_lines(lit(rng, v, src), out, kind="literal", value=bits(fv), nt=BASES[src][2], out=out))
+    # hex digit strings that contain something looking like another based literal (0b1, 0B0, 0b10 ...): the whole
+    # literal is ONE hex number (the three based regexes must be tried in an order that lets the hex literal win)
+    for hx in ["10B1", "a0b0", "0b0", "10b11", "F0B1F", "200B0", "7e0b1", "0B", "B0B", "1b0b1"]:
+        v = int(hx, 16)
+        text = "0x" + hx
+        out = printed(v, "hex")
+        add(two_lines(text, out, kind="hex-with-0b", value=bits(float(v)), nt=BASES["hex"][2], out=out))
     # known class C13-hex-currency: hex literals spelling a currency code after a digit, normal expectation
     for _ in range(8 if tier == "quick" else 60):
         code = rng.choice(["AED", "BBD", "CAD", "CDF", "xAF", "xCD"])
